@@ -31,7 +31,7 @@ theorem applyWithId_cases (cfg : Cfg) (ops : Ops Tree Plan Backup H) (w : World 
     | partly t' => simp
     | ok t' b =>
       by_cases hd : hasId w.entries id = true
-      · simp [addEntry, hd]
+      · by_cases hpb : cfg.planBeforeEntry = true <;> simp [addEntry, hd, hpb]
       · have hd' : hasId w.entries id = false := by simpa using hd
         simp [addEntry, hd']
 
@@ -51,8 +51,8 @@ theorem stepRename_cases (cfg : Cfg) (ops : Ops Tree Plan Backup H) (w : World T
 
 theorem stepUndo_cases (cfg : Cfg) (ops : Ops Tree Plan Backup H) (w : World Tree Plan Backup H) (t : Target H) :
     ((stepUndo cfg ops w t).2 = .ok ∧ ∃ i e, resolve w.entries true t = some i ∧ findEntry w.entries i = some e ∧
-      e.revertOf = none ∧ hasRevertOf w.entries i = false ∧ hasId w.entries (.revert i w.clock) = false ∧
-      (stepUndo cfg ops w t).1.entries = w.entries ++ [{ id := .revert i w.clock, revertOf := some i }]) ∨
+      e.revertOf = none ∧ hasRevertOf w.entries i = false ∧ hasId w.entries (revertId cfg i w.clock) = false ∧
+      (stepUndo cfg ops w t).1.entries = w.entries ++ [{ id := revertId cfg i w.clock, revertOf := some i }]) ∨
     ((stepUndo cfg ops w t).2 = .rejected ∧ (stepUndo cfg ops w t).1 = w) ∨
     ((stepUndo cfg ops w t).2 = .failed ∧ (stepUndo cfg ops w t).1.entries = w.entries) := by
   unfold stepUndo
@@ -85,9 +85,9 @@ theorem stepUndo_cases (cfg : Cfg) (ops : Ops Tree Plan Backup H) (w : World Tre
               | failed t' => by_cases hpv : cfg.undoPrevalidate = true <;> simp [hpv]
               | ok t' =>
                 simp only []
-                by_cases hd : hasId w.entries (.revert i w.clock) = true
+                by_cases hd : hasId w.entries (revertId cfg i w.clock) = true
                 · simp [addEntry, hd]
-                · have hd' : hasId w.entries (.revert i w.clock) = false := by simpa using hd
+                · have hd' : hasId w.entries (revertId cfg i w.clock) = false := by simpa using hd
                   simp [addEntry, hd']
                   exact ⟨e, hf, h1', h2'⟩
 
@@ -194,7 +194,7 @@ theorem undo_ok (cfg : Cfg) (ops : Ops Tree Plan Backup H) (w : World Tree Plan 
     (h : (step cfg ops w (.undo t)).2 = .ok) :
     ∃ i e, resolve w.entries true t = some i ∧ findEntry w.entries i = some e ∧ e.revertOf = none ∧
       hasRevertOf w.entries i = false ∧
-      (step cfg ops w (.undo t)).1.entries = w.entries ++ [{ id := .revert i w.clock, revertOf := some i }] := by
+      (step cfg ops w (.undo t)).1.entries = w.entries ++ [{ id := revertId cfg i w.clock, revertOf := some i }] := by
   rcases stepUndo_cases cfg ops w t with h' | h' | h'
   · obtain ⟨_, i, e, a, b, c, d, _, f⟩ := h'
     exact ⟨i, e, a, b, c, d, f⟩
@@ -396,7 +396,7 @@ theorem stepUndo_failed_prevalidated (cfg : Cfg) (hU : cfg.undoPrevalidate = tru
     (ops : Ops Tree Plan Backup H) (w : World Tree Plan Backup H) (t : Target H)
     (h : (stepUndo cfg ops w t).2 = .failed) :
     ∃ i, resolve w.entries true t = some i ∧ hasRevertOf w.entries i = false ∧
-      hasId w.entries (.revert i w.clock) = true := by
+      hasId w.entries (revertId cfg i w.clock) = true := by
   unfold stepUndo at h
   cases hr : resolve w.entries true t with
   | none => simp [hr] at h
@@ -422,9 +422,9 @@ theorem stepUndo_failed_prevalidated (cfg : Cfg) (hU : cfg.undoPrevalidate = tru
               | failed t' => simp [hv, hU] at h
               | ok t' =>
                 simp only [hv] at h
-                by_cases hd : hasId w.entries (.revert i w.clock) = true
+                by_cases hd : hasId w.entries (revertId cfg i w.clock) = true
                 · exact ⟨i, rfl, by simpa using h2, hd⟩
-                · have hd' : hasId w.entries (.revert i w.clock) = false := by simpa using hd
+                · have hd' : hasId w.entries (revertId cfg i w.clock) = false := by simpa using hd
                   simp [addEntry, hd'] at h
 
 /-- ids of the form `revert-<j>-…` belong to entries that revert `j` -/
@@ -438,7 +438,7 @@ theorem revForm_append (es : List (Entry H)) (n : Entry H) (h : RevForm es)
   · exact h e he j c hid
   · subst he; exact hn j c hid
 
-theorem step_revForm (cfg : Cfg) (ops : Ops Tree Plan Backup H) (w : World Tree Plan Backup H) (c : Cmd H)
+theorem step_revForm (cfg : Cfg) (hRI : cfg.revertIdOfRoot = false) (ops : Ops Tree Plan Backup H) (w : World Tree Plan Backup H) (c : Cmd H)
     (h : RevForm w.entries) : RevForm (step cfg ops w c).1.entries := by
   cases c with
   | rename s r =>
@@ -451,7 +451,7 @@ theorem step_revForm (cfg : Cfg) (ops : Ops Tree Plan Backup H) (w : World Tree 
     show RevForm (stepUndo cfg ops w t).1.entries
     rcases stepUndo_cases cfg ops w t with h' | h' | h'
     · obtain ⟨_, i, e, _, _, _, _, _, he⟩ := h'
-      rw [he]; exact revForm_append _ _ h (by intro j c hh; cases hh; rfl)
+      rw [he]; exact revForm_append _ _ h (by intro j c hh; simp [revertId, hRI] at hh; simp [hh.1])
     · rw [h'.2]; exact h
     · rw [h'.2]; exact h
   | redo t =>
@@ -463,21 +463,21 @@ theorem step_revForm (cfg : Cfg) (ops : Ops Tree Plan Backup H) (w : World Tree 
     · rw [h'.2]; exact h
   | tick => exact h
 
-theorem run_revForm (cfg : Cfg) (ops : Ops Tree Plan Backup H) (w : World Tree Plan Backup H) (cs : List (Cmd H))
+theorem run_revForm (cfg : Cfg) (hRI : cfg.revertIdOfRoot = false) (ops : Ops Tree Plan Backup H) (w : World Tree Plan Backup H) (cs : List (Cmd H))
     (h : RevForm w.entries) : RevForm (run cfg ops w cs).1.entries := by
   induction cs generalizing w with
   | nil => simpa [run] using h
-  | cons c cs ih => simp only [run]; exact ih _ (step_revForm cfg ops w c h)
+  | cons c cs ih => simp only [run]; exact ih _ (step_revForm cfg hRI ops w c h)
 
 /-- in a history whose revert ids are well-formed, a prevalidated undo never fails after a change -/
-theorem stepUndo_never_failed (cfg : Cfg) (hU : cfg.undoPrevalidate = true)
+theorem stepUndo_never_failed (cfg : Cfg) (hU : cfg.undoPrevalidate = true) (hRI : cfg.revertIdOfRoot = false)
     (ops : Ops Tree Plan Backup H) (w : World Tree Plan Backup H) (t : Target H) (hF : RevForm w.entries) :
     (stepUndo cfg ops w t).2 ≠ .failed := by
   intro h
   obtain ⟨i, _, hnr, hd⟩ := stepUndo_failed_prevalidated cfg hU ops w t h
   simp [hasId] at hd
   obtain ⟨e, he, hid⟩ := hd
-  have := hF e he i w.clock hid
+  have := hF e he i w.clock (by simpa [revertId, hRI] using hid)
   have hr : hasRevertOf w.entries i = true := by simp [hasRevertOf]; exact ⟨e, he, this⟩
   rw [hnr] at hr; cases hr
 
